@@ -850,7 +850,23 @@ impl<'tcx> Cx<'tcx> {
             }
             ty::Adt(adt, gargs) if adt.is_enum() => {
                 let fieldless = adt.variants().iter().all(|v| v.fields.is_empty());
-                if fieldless {
+                // Option<&T> / Option<&[T]>: niche-optimised, laid out like the reference itself (null = None)
+                let opt_ref = tcx.is_diagnostic_item(rustc_span::sym::Option, adt.did())
+                    && gargs.len() == 1
+                    && gargs.type_at(0).is_ref()
+                    && self.size_of(gargs.type_at(0)) == Some(size);
+                if opt_ref {
+                    let has_ptr = ptrs.iter().any(|(po, _)| *po == off);
+                    if has_ptr {
+                        let inner = self.read_typed(alloc_id, off, gargs.type_at(0), depth + 1);
+                        o.set("option", J::s("Some"));
+                        o.set("payload", inner);
+                    } else if b.iter().take(8).all(|x| *x == 0) {
+                        o.set("option", J::s("None"));
+                    } else {
+                        o.set("opaque", J::s("enum-with-data"));
+                    }
+                } else if fieldless {
                     self.enum_by_discr(&mut o, *adt, Self::le(b));
                 } else {
                     o.set("bytes", J::Arr(b.iter().map(|x| J::n(*x as i128)).collect()));
